@@ -2,6 +2,7 @@ package props
 
 import (
 	"fmt"
+	"regexp"
 	"strings"
 	"testing"
 
@@ -121,9 +122,10 @@ func (c07) Judge(c *Case, obs []*Obs) []Finding {
 		cmds, comments, err := parser.ParseCommands(env, "sim", rd)
 		alone[i] = fmt.Sprintf("cmds=%s\ncomments=%s\n%s", Dump(cmds, 0), Dump(comments, 0), DumpErr(err))
 		aloneErr[i] = err != nil
-		if len(c.Aliases) > 0 && rd.Len() != 0 {
-			// alias text changed the shape of this item (a newline in a value made a later word a reserved word, ...):
-			// parsed alone, one call does not consume it, so it is not ONE complete command under this table
+		if len(c.Aliases) > 0 && rd.Len() != 0 && reshapedByAlias(c.Aliases, text) {
+			// a newline in an alias value puts the NEXT word into command position; if that word is a reserved word
+			// (written as an argument: "b done"), the item is not one complete command under this table any more.
+			// (Decided from the text, not from what the implementation does with it.)
 			aloneErr[i] = true
 		}
 		if err != nil && len(c.Aliases) == 0 {
@@ -178,6 +180,22 @@ func (c07) Judge(c *Case, obs []*Obs) []Finding {
 		}
 	}
 	return fs
+}
+
+// reshapedByAlias: the text contains the name of an alias whose value holds a newline, directly followed by a
+// reserved word or brace.
+func reshapedByAlias(aliases [][2]string, text string) bool {
+	var names []string
+	for _, kv := range aliases {
+		if strings.Contains(kv[1], "\n") {
+			names = append(names, regexp.QuoteMeta(kv[0]))
+		}
+	}
+	if len(names) == 0 {
+		return false
+	}
+	re := regexp.MustCompile(`(^|[ \t;&|(){}!\n])(` + strings.Join(names, "|") + `)[ \t]+(done|fi|then|do|esac|elif|else|in|if|while|until|for|case|\{|\}|!)($|[ \t;&|()<>\n])`)
+	return re.MatchString(text)
 }
 
 func (c07) Nontrivial(c *Case, obs []*Obs) bool { return len(c.CmdEnds) >= 2 }
